@@ -58,6 +58,77 @@ fn reparse_fastq(out: &[u8]) -> String {
     v.join("/")
 }
 
+fn emit<W: std::io::Write>(out: &mut W, f: &str, w: usize, a: &[&str]) -> Option<()> {
+    let mut out = out;
+    match f {
+        "fa_to" => fasta::write_to(&mut out, &arg(a[0])?, &arg(a[1])?).unwrap(),
+        "fa_seq" => {
+            fasta::write_head(&mut out, &arg(a[0])?).unwrap();
+            fasta::write_seq(&mut out, &arg(a[1])?).unwrap()
+        }
+        "fa_parts" => {
+            let d = arg(a[1]);
+            fasta::write_parts(&mut out, &arg(a[0])?, d.as_deref(), &arg(a[2])?).unwrap()
+        }
+        "fa_wrap" => {
+            let d = arg(a[1]);
+            fasta::write_wrap(&mut out, &arg(a[0])?, d.as_deref(), &arg(a[2])?, w).unwrap()
+        }
+        "fa_seqiter" => {
+            fasta::write_head(&mut out, &arg(a[0])?).unwrap();
+            let s = segs(a[1]);
+            fasta::write_seq_iter(&mut out, s.iter().map(|x| x.as_slice())).unwrap()
+        }
+        "fa_wrapiter" => {
+            fasta::write_head(&mut out, &arg(a[0])?).unwrap();
+            let s = segs(a[1]);
+            fasta::write_wrap_seq_iter(&mut out, s.iter().map(|x| x.as_slice()), w).unwrap()
+        }
+        "fa_wrapseq" => {
+            let d = arg(a[1]);
+            fasta::write_id_desc(&mut out, &arg(a[0])?, d.as_deref()).unwrap();
+            fasta::write_wrap_seq(&mut out, &arg(a[2])?, w).unwrap()
+        }
+        "fa_owned" => {
+            use fasta::Record;
+            let r = fasta::OwnedRecord { head: arg(a[0])?, seq: arg(a[1])? };
+            r.write(&mut out).unwrap()
+        }
+        "fa_owned_wrap" => {
+            use fasta::Record;
+            let r = fasta::OwnedRecord { head: arg(a[0])?, seq: arg(a[1])? };
+            r.write_wrap(&mut out, w).unwrap()
+        }
+        "fa_many" => {
+            for rec in a[0].split('|') {
+                let (h, s) = rec.split_once(':')?;
+                fasta::write_to(&mut out, &unhex(h)?, &unhex(s)?).unwrap();
+            }
+        }
+        "fq_to" => fastq::write_to(&mut out, &arg(a[0])?, &arg(a[1])?, &arg(a[2])?).unwrap(),
+        "fq_parts" => {
+            let d = arg(a[1]);
+            fastq::write_parts(&mut out, &arg(a[0])?, d.as_deref(), &arg(a[2])?, &arg(a[3])?).unwrap()
+        }
+        "fq_owned" => {
+            use fastq::Record;
+            let r = fastq::OwnedRecord { head: arg(a[0])?, seq: arg(a[1])?, qual: arg(a[2])? };
+            r.write(&mut out).unwrap()
+        }
+        "fq_many" => {
+            for rec in a[0].split('|') {
+                let p: Vec<&str> = rec.split(':').collect();
+                if p.len() != 3 {
+                    return None;
+                }
+                fastq::write_to(&mut out, &unhex(p[0])?, &unhex(p[1])?, &unhex(p[2])?).unwrap();
+            }
+        }
+        _ => return None,
+    }
+    Some(())
+}
+
 pub fn run_case(line: &str) -> String {
     let t: Vec<&str> = line.trim().split(' ').collect();
     if t.len() != 7 {
@@ -69,82 +140,21 @@ pub fn run_case(line: &str) -> String {
         Err(_) => return "bad-case".into(),
     };
     let a: Vec<&str> = t[3..7].to_vec();
-    let res = catch_unwind(AssertUnwindSafe(|| -> Option<Vec<u8>> {
+    // once into a Vec, once into a writer that takes at most 1..3 bytes per call and has no write_vectored
+    let res = catch_unwind(AssertUnwindSafe(|| -> Option<(Vec<u8>, Vec<u8>)> {
         let mut out: Vec<u8> = vec![];
-        match f {
-            "fa_to" => fasta::write_to(&mut out, &arg(a[0])?, &arg(a[1])?).unwrap(),
-            "fa_seq" => {
-                fasta::write_head(&mut out, &arg(a[0])?).unwrap();
-                fasta::write_seq(&mut out, &arg(a[1])?).unwrap()
-            }
-            "fa_parts" => {
-                let d = arg(a[1]);
-                fasta::write_parts(&mut out, &arg(a[0])?, d.as_deref(), &arg(a[2])?).unwrap()
-            }
-            "fa_wrap" => {
-                let d = arg(a[1]);
-                fasta::write_wrap(&mut out, &arg(a[0])?, d.as_deref(), &arg(a[2])?, w).unwrap()
-            }
-            "fa_seqiter" => {
-                fasta::write_head(&mut out, &arg(a[0])?).unwrap();
-                let s = segs(a[1]);
-                fasta::write_seq_iter(&mut out, s.iter().map(|x| x.as_slice())).unwrap()
-            }
-            "fa_wrapiter" => {
-                fasta::write_head(&mut out, &arg(a[0])?).unwrap();
-                let s = segs(a[1]);
-                fasta::write_wrap_seq_iter(&mut out, s.iter().map(|x| x.as_slice()), w).unwrap()
-            }
-            "fa_wrapseq" => {
-                let d = arg(a[1]);
-                fasta::write_id_desc(&mut out, &arg(a[0])?, d.as_deref()).unwrap();
-                fasta::write_wrap_seq(&mut out, &arg(a[2])?, w).unwrap()
-            }
-            "fa_owned" => {
-                use fasta::Record;
-                let r = fasta::OwnedRecord { head: arg(a[0])?, seq: arg(a[1])? };
-                r.write(&mut out).unwrap()
-            }
-            "fa_owned_wrap" => {
-                use fasta::Record;
-                let r = fasta::OwnedRecord { head: arg(a[0])?, seq: arg(a[1])? };
-                r.write_wrap(&mut out, w).unwrap()
-            }
-            "fa_many" => {
-                for rec in a[0].split('|') {
-                    let (h, s) = rec.split_once(':')?;
-                    fasta::write_to(&mut out, &unhex(h)?, &unhex(s)?).unwrap();
-                }
-            }
-            "fq_to" => fastq::write_to(&mut out, &arg(a[0])?, &arg(a[1])?, &arg(a[2])?).unwrap(),
-            "fq_parts" => {
-                let d = arg(a[1]);
-                fastq::write_parts(&mut out, &arg(a[0])?, d.as_deref(), &arg(a[2])?, &arg(a[3])?).unwrap()
-            }
-            "fq_owned" => {
-                use fastq::Record;
-                let r = fastq::OwnedRecord { head: arg(a[0])?, seq: arg(a[1])?, qual: arg(a[2])? };
-                r.write(&mut out).unwrap()
-            }
-            "fq_many" => {
-                for rec in a[0].split('|') {
-                    let p: Vec<&str> = rec.split(':').collect();
-                    if p.len() != 3 {
-                        return None;
-                    }
-                    fastq::write_to(&mut out, &unhex(p[0])?, &unhex(p[1])?, &unhex(p[2])?).unwrap();
-                }
-            }
-            _ => return None,
-        }
-        Some(out)
+        emit(&mut out, f, w, &a)?;
+        let mut sw = ShortWriter::new(1 + line.len() % 3);
+        emit(&mut sw, f, w, &a)?;
+        Some((out, sw.out))
     }));
     match res {
         Err(_) => "PANIC".to_string(),
         Ok(None) => "bad-case".to_string(),
-        Ok(Some(out)) => {
+        Ok(Some((out, short))) => {
             let rt = if f.starts_with("fa") { reparse_fasta(&out) } else { reparse_fastq(&out) };
-            format!("{} RT:{}", hex_or_dash(&out), rt)
+            let sw = if short == out { String::new() } else { format!(" SW:{}", hex_or_dash(&short)) };
+            format!("{} RT:{}{}", hex_or_dash(&out), rt, sw)
         }
     }
 }
